@@ -11,6 +11,7 @@ import PharmpyModel.C12.Hash
     (build OPS T)            -> (ok "<json text>")             builder op sequence -> CompartmentalSystem.to_dict
     (canon GRAPH T)          -> (ok "<json text>")             repaired (canonical) to_dict
     (encode DATASET MODEL)   -> ((row n) .. (text s) ..)       ModelHash pre-image
+    (leaf REPR)              -> (ok "<text>")                  the numeric leaf encoder of json.dumps on one float
 -/
 open Pharmpy Pharmpy.C12
 
@@ -165,13 +166,23 @@ def pairOf? : Sexp → Option (S × S)
   | .list [.atom a, .atom b] => some (a, b)
   | _ => none
 
+def ieOf? : Sexp → Option (Option IE)
+  | .atom "none" => some none
+  | .list [.atom "ie", idx, cols] => do
+    let index ← listOf? Sexp.asAtom? idx
+    let cols ← listOf? (fun (c : Sexp) => match c with
+      | Sexp.list [Sexp.atom name, cells] => do some (name, ← listOf? jsonOf? cells)
+      | _ => none) cols
+    some (some { index, cols })
+  | _ => none
+
 def modelOf? : Sexp → Option (Model S S)
   | .list [.atom "model", .atom name, .atom description, ps, rvs, sts, steps, di, vt, dv, ot, ie] => do
     let dvj ← jsonOf? dv
     some { name, description, parameters := ← listOf? paramOf? ps, randomVariables := ← rvsOf? rvs,
            statements := ← listOf? stmtOf? sts, executionSteps := ← listOf? stepOf? steps, datainfo := ← diOf? di,
            valueType := ← jsonOf? vt, dependentVariables := ← dvj.asObj?,
-           observationTransformation := ← listOf? pairOf? ot, initialIndividualEstimates := ← jsonOf? ie }
+           observationTransformation := ← listOf? pairOf? ot, initialIndividualEstimates := ← ieOf? ie }
   | _ => none
 
 def datasetOf? : Sexp → Option (Dataset Nat)
@@ -277,6 +288,7 @@ def handle (req : Sexp) : Sexp :=
     answer (listOf? opOf? ops) (fun ops => okText (CompSys.toDict idCodec { g := runOps ops, t }))
   | .list [.atom "canon", g, .atom t] =>
     answer (graphOf? g) (fun g => okText (CompSys.toDict idCodec (CompSys.canon { g, t })))
+  | .list [.atom "leaf", .atom r] => .list [.atom "ok", .atom (render (.flt r))]
   | .list [.atom "encode", ds, m] =>
     match datasetOf? ds, modelOf? m with
     | some ds, some m => .list ((encode idCodec id render ds m).map chunkS)
